@@ -5,7 +5,12 @@
  * reads DIR/HOST.out and DIR/HOST.err (payloads) and DIR/HOST.plan, a list of lines
  *   o N USEC     write the next N bytes of the stdout payload with ONE write(2), then sleep USEC
  *   e N USEC     same for stderr
+ *   U USEC       make the command itself (argv[0]) vanish for USEC microseconds: rename it away now, a
+ *                detached grandchild renames it back later -- execvp() fails with ENOENT for the targets pdsh
+ *                starts in between (the transport's child fails BEFORE exec)
+ *   X USEC       same, by taking away the execute permission (EACCES)
  * and finally exits with the status given by an optional line `x STATUS`.
+ * It leaves DIR/HOST.ran behind: a target without that file never got its command started.
  * pdsh -R exec runs it once per target with %h substituted.
  */
 #include <stdio.h>
@@ -13,6 +18,8 @@
 #include <string.h>
 #include <unistd.h>
 #include <errno.h>
+#include <fcntl.h>
+#include <sys/stat.h>
 
 static unsigned char *slurp(const char *dir, const char *host, const char *ext, size_t *len)
 {
@@ -50,6 +57,31 @@ static void write_all(int fd, const unsigned char *b, size_t n)
     }
 }
 
+/* take the command away now, give it back after `us` microseconds (from a detached process that holds none
+ * of our descriptors, so that pdsh sees our streams end when we exit) */
+static void vanish(const char *self, int how, long us)
+{
+    char off[4200], me[4096];
+    pid_t pid;
+    ssize_t l = readlink("/proc/self/exe", me, sizeof me - 1);   /* argv[0] may be a bare name */
+    if (l > 0) { me[l] = 0; self = me; }
+    snprintf(off, sizeof off, "%s.off", self);
+    if (how == 'U') {
+        if (rename(self, off) < 0) return;
+    } else if (chmod(self, 0644) < 0)
+        return;
+    pid = fork();
+    if (pid == 0) {
+        int fd;
+        setsid();
+        for (fd = 0; fd < 256; fd++)
+            close(fd);
+        usleep(us);
+        if (how == 'U') rename(off, self); else chmod(self, 0755);
+        _exit(0);
+    }
+}
+
 int main(int argc, char **argv)
 {
     size_t olen, elen, plen, opos = 0, epos = 0;
@@ -65,6 +97,13 @@ int main(int argc, char **argv)
     if (!plan)
         return 95;
     plan[plen] = 0;
+    {
+        char mark[4096];
+        int fd;
+        snprintf(mark, sizeof mark, "%s/%s.ran", argv[1], argv[2]);
+        fd = open(mark, O_WRONLY | O_CREAT, 0644);
+        if (fd >= 0) close(fd);
+    }
     for (line = strtok_r(plan, "\n", &save); line; line = strtok_r(NULL, "\n", &save)) {
         char k;
         long n = 0, us = 0;
@@ -80,6 +119,9 @@ int main(int argc, char **argv)
             epos += n;
         } else if (k == 'x') {
             status = (int) n;
+        } else if (k == 'U' || k == 'X') {
+            vanish(argv[0], k, n);
+            continue;
         }
         if (us > 0)
             usleep(us);
